@@ -55,6 +55,10 @@ def point(pubkey_: bytes) -> typing.Tuple[int]:
     """
     assert len(pubkey_) == 33 or len(pubkey_) == 65, "invalid pubkey length"
     version = pubkey_[0]
+    if version in (2, 3):
+        assert len(pubkey_) == 33, "invalid compressed pubkey length"
+    elif version == 4:
+        assert len(pubkey_) == 65, "invalid uncompressed pubkey length"
     payload = pubkey_[1:]
     x = int.from_bytes(payload[:32], "big")
     if version == 2:
